@@ -56,6 +56,8 @@ pub struct PanicInfo {
     pub msg: String,
     pub file: String,
     pub line: u32,
+    /// task that was running
+    pub task: u32,
 }
 
 #[derive(Clone, Debug, Default)]
@@ -89,7 +91,7 @@ pub fn install_panic_hook() {
         LAST_PANIC.with(|p| {
             let mut p = p.borrow_mut();
             if p.is_none() {
-                *p = Some(PanicInfo { msg, file, line });
+                *p = Some(PanicInfo { msg, file, line, task: 0 });
             }
         });
     }));
@@ -110,7 +112,9 @@ pub fn run_guest<R>(t: u32, f: impl FnOnce() -> R) -> Result<R, PanicInfo> {
             // the payload is dropped here, in host mode (it was allocated in guest mode;
             // the ledger matches frees by address)
             drop(payload);
-            Err(LAST_PANIC.with(|p| p.borrow_mut().take()).unwrap_or_default())
+            let mut info = LAST_PANIC.with(|p| p.borrow_mut().take()).unwrap_or_default();
+            info.task = t;
+            Err(info)
         }
     }
 }
@@ -220,6 +224,7 @@ fn note_code(t: u32, code: u32) {
             }
         }
     });
+    observe_return(t, code);
     if code != 0 {
         snapshot_task(t, "return");
     }
@@ -229,6 +234,49 @@ fn note_code(t: u32, code: u32) {
     for o in others {
         snapshot_task(o, "other-task-returned");
     }
+}
+
+/// What the host and hook H3 see of task `t` right after a callback returned
+/// `code` (C22 oracle): context slot, executor sleep state, remaining Rust
+/// work, registrations, the waitable set named by WAIT.
+fn observe_return(t: u32, code: u32) {
+    let _g = crate::alloc::host_mode();
+    let (ctx, skip) = host::with(|h| {
+        let task = &h.tasks[t as usize];
+        (task.ctx, task.is_v1 || task.is_block_on || h.violated())
+    });
+    if skip {
+        return;
+    }
+    let mut evs: Vec<(&'static str, u64, u64)> = vec![("ret.ctx", (ctx != 0) as u64, code as u64)];
+    if code == 0 {
+        host::with(|h| {
+            for (i, o) in h.table.iter().enumerate() {
+                if let Some(host::Obj::Set { members, owner_task, .. }) = o {
+                    if *owner_task == t {
+                        evs.push(("exit.live-own-set", i as u64, members.len() as u64));
+                    }
+                }
+            }
+        });
+    } else if ctx != 0 {
+        let p = ctx as *mut u8;
+        let (sleep, work, nkeys, set) = unsafe { (rt::verif::task_sleep_state(p), rt::verif::task_has_rust_work(p), rt::verif::task_waitables(p).len(), rt::verif::task_waitable_set(p)) };
+        evs.push(("ret.sleep", sleep as u64, work as u64));
+        evs.push(("ret.regs", nkeys as u64, set.unwrap_or(0) as u64));
+        if code & 0xf == CALLBACK_WAIT {
+            host::with(|h| {
+                if let Some(Some(host::Obj::Set { members, owner_task, .. })) = h.table.get((code >> 4) as usize) {
+                    evs.push(("ret.wait-set", members.len() as u64, *owner_task as u64));
+                }
+            });
+        }
+    }
+    host::with(|h| {
+        for (key, a, b) in evs {
+            h.log.push(Ev::Mon { task: t, key, a, b });
+        }
+    });
 }
 
 #[derive(Copy, Clone, Debug)]
